@@ -48,6 +48,74 @@ def decode_flat(codec, proto, ns, schema, out, fmt):
     return sw.flat_values(proto, codec.decode_ndjson(proto, ns, text, schema)), None
 
 
+def unions_sharing_case_types(pkg):
+    """{case-type list (as text): set of tag tuples} for the unions of a package tree whose case types (and null option) are
+    the same while their tags differ - one C++ type, and so one nlohmann serializer, for unions the model tells apart."""
+    found = {}
+
+    def walk(t, ns):
+        if isinstance(t, M.Union):
+            key = repr((tuple(M.qualify(c, ns) for _, c in t.cases), t.nullable))
+            found.setdefault(key, set()).add(tuple(tag for tag, _ in t.cases))
+            for _, c in t.cases:
+                walk(c, ns)
+        elif isinstance(t, M.Opt):
+            walk(t.inner, ns)
+        elif isinstance(t, (M.Vec, M.Arr)):
+            walk(t.inner, ns)
+        elif isinstance(t, M.Map):
+            walk(t.key, ns); walk(t.value, ns)
+        elif isinstance(t, M.Named):
+            for a in t.args:
+                walk(a, ns)
+
+    for p in pkg.all_packages():
+        for d in p.defs():
+            if isinstance(d, M.Record):
+                for _, ft in d.fields:
+                    walk(ft, p.namespace)
+            elif isinstance(d, M.Alias):
+                walk(d.type, p.namespace)
+            elif isinstance(d, M.Protocol):
+                for _, st, _ in d.steps:
+                    walk(st, p.namespace)
+    return {k: v for k, v in found.items() if len(v) > 1}
+
+
+def _union_keys_reached(pkg, t):
+    """keys (as in unions_sharing_case_types) of the unions that a value of type t (of the main package) can contain"""
+    env = M.Env(pkg)
+    keys, seen = set(), set()
+
+    def walk(t, ns):
+        if isinstance(t, M.Union):
+            keys.add(repr((tuple(M.qualify(c, ns) for _, c in t.cases), t.nullable)))
+            for _, c in t.cases:
+                walk(c, ns)
+        elif isinstance(t, M.Opt):
+            walk(t.inner, ns)
+        elif isinstance(t, (M.Vec, M.Arr)):
+            walk(t.inner, ns)
+        elif isinstance(t, M.Map):
+            walk(t.key, ns); walk(t.value, ns)
+        elif isinstance(t, M.Named):
+            tns = t.ns or ns
+            for a in t.args:
+                walk(a, ns)
+            d = env.by_ns[tns].find(t.name)
+            if d is None or (tns, t.name) in seen:
+                return
+            seen.add((tns, t.name))
+            if isinstance(d, M.Record):
+                for _, ft in d.fields:
+                    walk(ft, tns)
+            elif isinstance(d, M.Alias):
+                walk(d.type, tns)
+
+    walk(t, pkg.namespace)
+    return keys
+
+
 class Ctx:
     def __init__(self, prop, model, cm, task, stats, viols):
         self.prop, self.model, self.cm, self.task, self.stats, self.viols = prop, model, cm, task, stats, viols
@@ -63,6 +131,22 @@ class Ctx:
              "values": sw.pack(vals), "partitions": sw.pack(parts), "pipeline": pipeline, "detail": detail[:700], "seed": self.task["seed"],
              "model_index": self.task["i"], "values_repr": repr(vals)[:1500]}
         d.update(extra or {})
+        # identification of a recorded finding (known_findings.json): the model tells two unions apart by their tags only,
+        # a C++ NDJSON hop is involved, and the complaint names one of those tags or a step whose type contains such a union
+        if any(h.startswith("cpp.") and "j" in h[4:] for h in pipeline.split(">")):
+            clash = unions_sharing_case_types(self.model.pkg)
+            if clash:
+                import re
+                tags = {t for v in clash.values() for tup in v for t in tup}
+                m = re.search(r"\(step (\w+)\)", detail)
+                mt = re.search(r"unknown union tag (\w+)", detail)
+                hit = bool(mt and mt.group(1) in tags) or any(q in tags for q in re.findall(r"'(\w+)'", detail))
+                if m and not hit:
+                    st = [t for n, t, _ in proto.steps if n == m.group(1)]
+                    if st:
+                        hit = any(k in clash for k in _union_keys_reached(self.model.pkg, st[0]))
+                if hit:
+                    rec = dict(rec, cause="cpp_ndjson_one_serializer_for_unions_that_differ_in_tags_only")
         self.viols.append((rec, d))
 
 
